@@ -238,6 +238,11 @@ def own_queries(ctx):
         for nv in (100, 200) if quick else (94, 100, 150, 200, 377):
             qs.append(Query("mpz_%s.n%d" % (nm, nv), "C15_calls.c", ["mpz/fib_ui.c", "mpz/lucnum_ui.c", G + "fib2_ui.c", G + "fib_table.c", "mpz/mul_2exp.c", "mpz/set_ui.c"] + MUL + LIN + B, {"FN": 3, "SUB": sub, "NV": nv}, unwind=20, timeout=600,
                             funcs=["mpz/%s.c:mpz_%s" % (nm, nm), G + "fib2_ui.c:mpn_fib2_ui"], domain="D-SHAPE"))
+    for sub, nm, thr in ((0, "mul_n", "MUL_KARATSUBA_THRESHOLD"), (1, "sqr", "SQR_KARATSUBA_THRESHOLD")):
+        for nv in ((4, 5) if quick else (4, 5, 6, 7, 8)):
+            qs.append(Query("mpn_%s.kara4.n%d" % (nm, nv), "C15_calls.c", MUL + LIN + B, {"FN": 5, "SUB": sub, "NV": nv}, unwind=nv + 4, timeout=600, variant="exact+thr:%s=4" % thr,
+                            funcs=[G + "mul_n.c:mpn_mul_n" if sub == 0 else G + "mul_n.c:mpn_sqr", G + "mul_n.c:mpn_kara_mul_n" if sub == 0 else G + "mul_n.c:mpn_kara_sqr_n"], domain="D-FULL (one symbolic limb, other limbs concrete)",
+                            stubs=["sqr_basecase.asm -> generic C twin", "tuning table: %s lowered to 4 (valid setting)" % thr]))
     return qs
 
 
@@ -267,6 +272,6 @@ ASSUMPTIONS = [
 ]
 MANIFEST = {
  "text": "Bounded model checking of the per-call footprint premise of the thread-safety argument: for every harnessed reentrant function (the value harness families of C01-C03, C06-C13, C16-C19 re-run inside a generated wrapper) the solver decides over all symbolic inputs that the call leaves every static-lifetime non-const object of the real library units bit-identical (function-local statics are named through asm labels carrying CBMC's symbol names; the inventory is rebuilt from the goto symbol tables on every run), so no hidden cache, lazily initialised table, static temporary or shared scratch buffer is written by a reentrant call. The schedule quantifier itself is discharged by the stated non-interference lemma, not by the solver.",
- "note": "Bounds: the shapes of the reused harness families (a spread of queries per family; <= 3-4 limbs). Outside: interleavings (CBMC cannot interleave this code), functions without a harness family (the FFT transforms themselves, Miller-Rabin/probab_prime_p, gcdext, scanf, mpf I/O) and the DC / precomputed-power-table paths of mpn_set_str / mpn_get_str (measured out of reach), writes that store the value already present.",
+ "note": "Bounds: the shapes of the reused harness families (a spread of queries per family; <= 3-4 limbs); mpn_mul_n / mpn_sqr with the Karatsuba threshold of the tuning table lowered to 4 (a valid setting) at 4 and 5 limbs (one symbolic limb, exact products), so that the fixed-size workspace path and mpn_kara_mul_n / mpn_kara_sqr_n are inside a frame query. Outside: interleavings (CBMC cannot interleave this code), functions without a harness family (the FFT transforms themselves, Miller-Rabin/probab_prime_p, gcdext, scanf, mpf I/O) and the DC / precomputed-power-table paths of mpn_set_str / mpn_get_str (measured out of reach), writes that store the value already present.",
  "technique": "bounded symbolic execution of the real C sources with CBMC (SAT): frame condition over all static-lifetime objects of the library (symbol-table inventory, asm-label naming of function-local statics) asserted around each harnessed call; native replay by comparing the library's data sections before and after the call",
 }
